@@ -119,6 +119,7 @@ class UnmanagedBSE(ManagedBSE):
             if 'close' in roles and L.get('closes', 0) < 1: acts.append(('tclose', t))      # a second closer: close() called by a task thread
             if L['objs']:
                 if 'drop' in roles: acts.append(('drop', t, 0))
+                if 'drop' in roles and s.cfg.get('unwinding_drop'): acts.append(('drop', t, 0, 'unwinding'))     # the holder panics: the Object is returned while its thread unwinds
                 if s.cfg['take'] and 'take' in roles: acts.append(('take', t, 0))
         C = st.threads['C'].local
         if C['nctl'] < s.cfg['max_ctl'] and not st.threads['C'].stack:
@@ -179,7 +180,9 @@ class UnmanagedBSE(ManagedBSE):
             w = dict(st.gget('where'))
             if kind == 'drop':
                 w[oid] = 'returning'; st.gset('where', w)
-                s.set_op(st, t, a, 'dropping', res=('ok',), oid=oid, ret=True, after_close=bool(st.gget('closed_ret')))
+                unw = len(a) > 3 and a[3] == 'unwinding'
+                if unw: th.panicking = True          # std::thread::panicking() is true while the Object's Drop runs
+                s.set_op(st, t, a, 'dropping', res=('ok',), oid=oid, ret=True, after_close=bool(st.gget('closed_ret')), unwinding=unw)
                 M.start_drop(st, th, [obj])
             else:
                 s.set_op(st, t, a, 'taking', oid=oid)
@@ -247,12 +250,13 @@ class UnmanagedBSE(ManagedBSE):
             if res.variant == 'Ok': return s.got_object(st, t, a, payload(res), data['variant'] in ('remove', 'timeout_remove'))
             return s.end_op(st, t, a, ('err', s.err_desc(payload(res))))
         if phase == 'dropping':
+            if data.get('unwinding'): st.threads[t].panicking = False
             res = data['res'] if result[0] == 'ok' else result
             if data.get('ret') and result[0] == 'ok':
                 oid = data['oid']; w = dict(st.gget('where'))
                 if w.get(oid) == 'returning':
                     w[oid] = 'destroyed' if st.gget('objs')[oid]['destroyed'] else 'pool'; st.gset('where', w)
-            return s.end_op(st, t, a, res, **{k: v for k, v in data.items() if k not in ('res', 'ret')})
+            return s.end_op(st, t, a, res, **{k: v for k, v in data.items() if k not in ('res', 'ret', 'unwinding')})
         if phase == 'taking':
             if result[0] != 'ok': return s.end_op(st, t, a, result, oid=data['oid'])
             oid = data['oid']; w = dict(st.gget('where')); w[oid] = 'handed_back'; st.gset('where', w)
